@@ -26,7 +26,6 @@ import (
 
 // vFireTimerRaw fires the earliest virtual timer without running the woken
 // goroutine (engine/interp/models_c13.go).
-func vFireTimerRaw() bool
 
 const c13Delay = 50 * time.Millisecond
 
